@@ -29,11 +29,11 @@ pub fn spec() -> CheckSpec {
     CheckSpec {
         id: "C14",
         level: "exploration",
-        rule: "proptest: operation sequences (create a transaction at the model tip with since (absolute/relative block number, epoch, median time) / cellbase-maturity / witness-checking-lock variants and submit it to the pool; re-submit a known transaction with other witnesses; build a block on the tip, on an ancestor or on a stored side block that proposes / commits known transactions, optionally with another witness variant or at a position where the transaction is immature or its script fails, or with a wrong DAO field / reward / chain root / transactions root; re-deliver a block; directed composites: since-fork (pool-accepted since transaction committed earlier on a fork), relative-since reorg (transaction cached on the block path, input re-committed later on the winning chain, re-submitted to the pool), NervosDAO deposit + phase-1 withdrawal with equal / different lock size; query batteries on block hashes before arrival, after arrival, after deletion, on transactions and on cells, through the store and through the snapshot) interpreted over the reference model and applied to two real nodes, one with default or tiny caches and one with all caches disabled; four chain-spec variants (proposal windows (2,4) (2,10) (1,2), cellbase maturity 0 / fractions of an epoch / one epoch, one with ckb2023 activating at epoch 2). Oracle after every operation: same block verdict (and the model's verdict), same BlockExt, same pool verdict and reported cycles/fee, same pool entries, same answer to every query, and the model's answer for presence-determined queries. A case = one sequence; non-trivial = at least one hit on the transaction-verification cache (peeked before the operation) for a transaction verified at another position than where it was cached, or one query repeated across an insert or delete of the same hash; distinct by hash of the case.",
+        rule: "proptest: operation sequences (create a transaction at the model tip with since (absolute/relative block number, epoch, median time) / cellbase-maturity / witness-checking-lock variants and submit it to the pool; re-submit a known transaction with other witnesses; build a block on the tip, on an ancestor or on a stored side block that proposes / commits known transactions, optionally with another witness variant or at a position where the transaction is immature or its script fails, or with a wrong DAO field / reward / chain root / transactions root; re-deliver a block; directed composites: since-fork (pool-accepted since transaction committed earlier on a fork), relative-since reorg (transaction cached on the block path, input re-committed later on the winning chain, re-submitted to the pool), NervosDAO deposit + phase-1 withdrawal with equal / different lock size; query batteries on block hashes before arrival, after arrival, after deletion, on transactions and on cells, through the store and through the snapshot) interpreted over the reference model and applied to two real nodes, one with default or tiny caches and one with all caches disabled; four chain-spec variants (proposal windows (2,4) (2,10) (1,2), cellbase maturity 0 / fractions of an epoch / one epoch, one with ckb2023 activating at epoch 2). Oracle after every operation: same block verdict (and the model's verdict), same BlockExt, same pool verdict and reported cycles/fee, same pool entries, same answer to every query, and the model's answer for presence-determined queries. A case = one sequence; non-trivial = at least one hit on the transaction-verification cache (peeked before the operation) for a transaction verified at another position than where it was cached, or one query repeated across an insert or delete of the same hash; distinct by hash of the case. Sub-check system-cell-cache: a short chain, prepared dep-group cells and 6-12 transactions whose cell deps mix the two cached system dep groups (2 members each), the three cached plain system cells, system cells the cache does not hold, a system group cell read as code / a code cell read as group, ordinary dep groups of 1-24 members drawn from system cells with repetitions, a spare plain cell, unknown out points, an optional verbatim duplicate, in generated order, topped up by a 1900-member group and a trim group so that the total expansion is exactly 2047 / 2048 / 2049; each case is evaluated in this process (SYSTEM_CELL empty) and in a helper process in which setup_system_cell_cache(genesis, snapshot) was called as ckb run does. Oracle: in both processes every pool verdict (test_accept_tx fresh and proposed, submit_local_tx) and every block verdict (probe block per model-invalid transaction, the real block for the rest) equals the C04 admissibility model (expansion counted from the cell data of the model's own live-cell set), and the two processes' observations (verdict class, cycles, fee) are identical; non-trivial there = a transaction with total expansion 2047/2048/2049 that uses a cached system dep.",
         assumptions: &[
             "the reference node runs with StoreConfig cache sizes 0 and a transaction-verification cache of capacity 0 (lru 0.7.8 treats capacity 0 as 'never retain'), which is what 'all caches empty or disabled' means here",
             "operations are applied sequentially and both nodes are quiescent (block callback fired, pool synced to the tip) before anything is compared; cache effects that need two blocks in flight at once are not explored",
-            "SYSTEM_CELL is process-global: two of the eight workers run every case with the system-cell cache installed and are compared against the model only (not against a process without it)",
+            "SYSTEM_CELL is process-global: two of the eight workers run every paired-history case with the system-cell cache installed and are compared against the model only; the sub-check system-cell-cache compares a process with the cache against a process without it on the same cases (system cells are unspendable in the verif specs, the documented precondition of the cache)",
             "script semantics of the witness-checking lock are those of the C source in c14_world.rs; block validity is predicted from RFC 0017 (since), the cellbase maturity rule and that script, not from the node's verifiers",
         ],
         workers: |_| 8,
@@ -1906,7 +1906,22 @@ fn av_prop(case: &AvCase, st: &mut Stats) -> Verdict {
 }
 
 fn run(ctx: &Ctx) {
+    if super::c14_syscell::is_server() {
+        // helper process of the `system-cell-cache` sub-check (evaluates cases with the cache installed)
+        super::c14_syscell::serve();
+        return;
+    }
     ctx.shrink_iters.set(120);
+    // development aid: VERIF_ONLY_SUB=<sub name> runs one sub-check only
+    let only = std::env::var("VERIF_ONLY_SUB").ok();
+    let want = |sub: &str| only.as_deref().map(|o| o == sub).unwrap_or(true);
+    // first: the cache is a OnceLock and this sub-check needs a process that has not installed it yet
+    if want(super::c14_syscell::SUB) {
+        super::c14_syscell::run(ctx);
+    }
+    if only.is_some() && !want("paired-history") {
+        return;
+    }
     let k = Known::from_ctx(ctx);
     // workers 3 and 7 (of 8) run with the process-global SYSTEM_CELL cache installed, on one
     // genesis each
@@ -1922,6 +1937,9 @@ fn run(ctx: &Ctx) {
 }
 
 fn replay(ctx: &Ctx, sub: &str, v: &Value) -> Verdict {
+    if sub == super::c14_syscell::SUB {
+        return super::c14_syscell::replay(ctx, v);
+    }
     if sub == "assume-valid-window" {
         let c: AvCase = from_case(v)?;
         let mut st = ctx.stats.borrow_mut();
